@@ -238,6 +238,28 @@ def prefix_substitutions(enc: bytes, layout, flexible, is_request_header=False):
                 yield ("substitute", [s, e], r.hex()), enc[:s] + r + enc[e:]
 
 
+ILL_FORMED_UTF8 = (b"\xed\xa0\x80", b"\xed\xbf\xbf", b"\xc0\x80", b"\xe0\x80\x80", b"\xf4\x90\x80\x80", b"\xf8\x88\x80\x80\x80",
+                   b"\xe2\x82", b"\xc3", b"\xfe", b"\xed\xa0\xbd\xed\xb8\x80")
+
+
+def payload_substitutions(enc: bytes, layout):
+    """Overwrite the start and the end of each length-prefixed payload (string / bytes data span) in place
+    with ill-formed UTF-8: encoded surrogates (CESU-8), over-long forms (modified UTF-8 NUL), code points
+    beyond U+10FFFF, 5-byte forms, truncated sequences - everything a strict UTF-8 decoder refuses and a
+    lenient one turns into a str the encoder cannot write."""
+    prev = None
+    for s, e, kind, path in layout.spans:
+        if kind == "data" and prev is not None and prev[2] == "len" and prev[3] == path and prev[1] == s:
+            for ill in ILL_FORMED_UTF8:
+                n = len(ill)
+                if n <= e - s:
+                    if enc[s : s + n] != ill:
+                        yield ("payload", [s, s + n], ill.hex()), enc[:s] + ill + enc[s + n :]
+                    if e - n != s and enc[e - n : e] != ill:
+                        yield ("payload", [e - n, e], ill.hex()), enc[: e - n] + ill + enc[e:]
+        prev = (s, e, kind, path)
+
+
 # ---------------------------------------------------------------------------------------
 # step budget: deterministic stand-in for "time proportional to the input"
 # ---------------------------------------------------------------------------------------
